@@ -875,7 +875,7 @@ RAW_OK = {"choice-no-name", "dup-choice", "missing-list", "dup-sibling", "missin
 def _cases(draw):
     which = draw(st.integers(0, 10))
     if which < 7:
-        prof = dict(gen.PROFILES["broad"], max_depth=4, p_group=0.22, p_repeat=0.18, p_blank_row=0.12, text="plain", text_ctl=False,
+        prof = dict(gen.PROFILES["broad"], max_depth=4, p_empty_container=0.06, p_group=0.22, p_repeat=0.18, p_blank_row=0.12, text="plain", text_ctl=False,
                     p_table_list=0.03, p_params=0.4, p_search=0.0, p_entities=0.1, settings="some", p_extra_sheets=0.0, p_osm=0.05, p_osm_self=0.3,
                     p_extra_cols=0.3, extra_col_names=["fields", "self", "kwargs", "type", "e1", "media", "control", "bind"])
         g = gen.G(draw, prof)
@@ -914,7 +914,7 @@ def build_junk(draw):
 def build_near_valid(draw):
     """a valid generated workbook with 1-4 cells (or whole rows) overwritten from the vocabulary: reaches the code behind the header
     and type checks that pure soup rarely passes"""
-    prof = dict(gen.PROFILES["broad"], max_depth=3, p_blank_row=0.05, text="plain", text_ctl=False, p_params=0.5, p_entities=0.15,
+    prof = dict(gen.PROFILES["broad"], max_depth=3, p_empty_container=0.06, p_blank_row=0.05, text="plain", text_ctl=False, p_params=0.5, p_entities=0.15,
                 settings="some", p_external=0.15, p_table_list=0.05, p_or_other=0.15, p_osm=0.08, p_osm_self=0.4, p_extra_cols=0.3,
                 extra_col_names=["fields", "self", "kwargs", "type", "e1", "media", "control", "bind"])
     g = gen.G(draw, prof)
